@@ -12,6 +12,7 @@ var simsched struct {
 	selSalt uint32
 	resume  guintptr
 	picks   uint64
+	bpicks  uint64 // picks of goroutines that belong to a bubble (progress of the simulated system)
 	draws   uint64
 	points  uint64
 	yields  uint64
@@ -67,6 +68,9 @@ func SimSig() uint64 { return simsched.sig }
 
 // SimPicks is safe to call from outside the bubble (watchdog).
 func SimPicks() uint64 { return simsched.picks }
+
+// SimBubblePicks counts scheduling decisions that ran a goroutine of the simulated system.
+func SimBubblePicks() uint64 { return simsched.bpicks }
 
 // SimRand lets the harness draw from the same stream (only from bubble goroutines).
 func SimRand() uint64 { return simrand() }
@@ -227,6 +231,9 @@ func simPick(pp *p) *g {
 		}
 	}
 	gp := simsched.buf[idx].ptr()
+	if gp.bubble != nil {
+		simsched.bpicks++
+	}
 	if simsched.trace && !resumed {
 		print("PICK n=", n, " idx=", idx, " goid=", gp.goid, " bub=", gp.bubble != nil, " pts=", simsched.points, " pool=")
 		for i := 0; i < n; i++ {
